@@ -197,6 +197,47 @@ def any_closures(ctx, fn):
     return out
 
 
+def d2b_flag_never_stale(ctx):
+    """`stall_gated` is recomputed for every link on every pass: no path through apply_stall_gate returns without
+    running a full-slice loop that stores the flag (a stale `true` would exclude a link with no healthy alternative)."""
+    gate = ctx.fn(GATE, "D2")
+    if not gate:
+        return
+    cfg = ctx.cfg(gate)
+    fa = ctx.fa(gate)
+    stores = field_stores(gate, CONN, "stall_gated")
+    heads = set()
+    for (bb, si, s) in stores:
+        loop = cfg.innermost_loop_of(bb)
+        if loop is None:
+            ctx.chk.ob("D2", "stall_gated stores are inside loops over the links", False, "store outside a loop", key="D2:flag-store-in-loop", loc=s.get("loc"))
+            continue
+        head, body = loop
+        # every iteration stores: the store block dominates the back-edge sources of its loop
+        backs = [t for (t, h) in cfg.back_edges() if h == head]
+        ctx.chk.ob("D2", "every iteration of the loop stores the flag", all(cfg.dominates(bb, t) for t in backs), "", key="D2:flag-store-each-iteration", loc=s.get("loc"))
+        # the loop ranges over the whole slice
+        link = fa.val_place({"l": s["p"]["l"], "proj": s["p"]["proj"][:-1]}, (bb, si))
+        its = [x for x in walk(link) if is_call(x, name_contains="<impl [T]>::iter_mut")]
+        ctx.chk.ob("D2", "the flag loop ranges over every link", bool(its) and its[0][2] == (("param", 1),), show(link, gate.names)[:120], key="D2:flag-loop-full-slice", loc=s.get("loc"))
+        heads.add(head)
+    ctx.chk.floor("D2", "loops that recompute stall_gated", len(heads), 2)
+    leak = cfg.returns_reachable_avoiding(heads)
+    ctx.chk.ob("D2", "every path through apply_stall_gate recomputes stall_gated for all links (the flag can never go stale)", not leak,
+               "" if not leak else "return bb%d is reachable without passing any flag loop (heads %s)" % (leak[0], sorted(heads)), key="D2:flag-recomputed-on-every-path")
+    # and nobody else writes it except the link reset
+    ctx.WHO_WRITES("D2", CONN, "stall_gated", {GATE, CONN + "::reset_core_state"}, floor=2, allow_agg_in={CONN + "::new_registering"})
+    # the scheduler always runs the gate first
+    sel = ctx.fn("srtla_core::selection::select_connection_idx", "D2")
+    if sel:
+        cfgs = ctx.cfg(sel)
+        g = calls_to(sel, stable=GATE)
+        ok = len(g) == 1 and all(cfgs.dominates(g[0][0], bb) for (bb, t) in calls_to(sel, stable=CLASSIC) + calls_to(sel, stable=ENH))
+        ctx.chk.ob("D2", "the gate runs before either selector on every call", ok, "", key="D2:gate-before-selectors")
+    ctx.WHO_CALLS("D2", CLASSIC, {"srtla_core::selection::select_connection_idx"}, floor=1)
+    ctx.WHO_CALLS("D2", ENH, {"srtla_core::selection::select_connection_idx"}, floor=1)
+
+
 def b_and(pa, x, y):
     return pa.bdd.AND(x, y)
 
@@ -355,7 +396,7 @@ def d7_hysteresis(ctx):
     ctx.chk.floor("D7", "current_score := Some(..) stores", n, 1)
 
 
-RULES = [d1_d3_gate_chain, d4_gate_multiplier, d5_initial_best, d6_phase_tables, d7_hysteresis]
+RULES = [d1_d3_gate_chain, d2b_flag_never_stale, d4_gate_multiplier, d5_initial_best, d6_phase_tables, d7_hysteresis]
 
 
 def run(ctx):
